@@ -123,7 +123,9 @@ fn marshal_header(
         marshal_header_unix_fds(byteorder, msg.body.get_fds().len() as u32, buf)?;
     }
     let len = buf.len() - pos - 4; // -4 the bytes for the length indicator do not count
-    insert_u32(byteorder, len as u32, &mut buf[pos..pos + 4]);
+    // the header fields are an array, so they can only be as long as the protocol allows arrays to be
+    let len = check_marshalled_array_len(len)?;
+    insert_u32(byteorder, len, &mut buf[pos..pos + 4]);
 
     Ok(())
 }
